@@ -17,6 +17,7 @@ import ShapeVerif.Model.ParseCst
 import ShapeVerif.Model.Gen
 import ShapeVerif.Model.Derive
 import ShapeVerif.Model.Build
+import ShapeVerif.Model.Subtypes
 import ShapeVerif.Ref.Sem
 import ShapeVerif.Ref.Rfc8259
 import ShapeVerif.Ref.Witness
@@ -236,8 +237,46 @@ def buildHistoryModel (steps : List String) : String :=
     "steps" ++ r.2.foldl (fun acc o => acc ++ " " ++ showBuildOut o) "" ++ " |" ++
       sorted.foldl (fun acc f => acc ++ " " ++ hexOfString f.1 ++ "=" ++ hexOfString f.2) ""
 
+/-- type argument of a typed query: `Number`, `ONumber` (= `Optional<Number>`), ... -/
+def tyArgOfString (t : String) : Option (Kind × Bool) :=
+  let base (b : String) : Option Kind :=
+    match b with
+    | "Null" => some .null | "Number" => some .number | "String" => some .string | "Boolean" => some .boolean
+    | "Array" => some .array | "Tuple" => some .tuple | "Object" => some .object | "OneOf" => some .oneOf
+    | _ => none
+  match base t with
+  | some k => some (k, false)
+  | none => if t.startsWith "O" then (base (t.drop 1).toString).map (fun k => (k, true)) else none
+
+def subQuery (q t : String) (a : Shape) (key : String) (i : Nat) : String :=
+  match tyArgOfString t with
+  | none => "n/a"
+  | some (k, o) =>
+    -- the impls that exist: no Optional<Null>; IsArrayOf/IsOneOf/IsObjectOf for every other argument;
+    -- IsTupleOf has no Tuple / Optional<Tuple>
+    if k == .null && o then "n/a" else
+    match q with
+    | "arr" => showBool (isArrayOf k o a)
+    | "one" => showBool (isOneOfT k o a)
+    | "obj" => showBool (isObjectOf k o key a)
+    | "tup" => if k == .tuple then "n/a" else showBool (isTupleOfAt k o i a)
+    | _ => "bad-op"
+
 def step (line : String) : String :=
   match line.splitOn "\t" with
+  | ["sub", q, t, a, key, i] => withShape a fun a =>
+      match textOfHex key, i.toNat? with
+      | some key, some i => subQuery q t a key i
+      | _, _ => "bad-op"
+  | "tupof" :: a :: types => withShape a fun a =>
+      let rec go : List String → Option (List Shape)
+        | [] => some []
+        | t :: ts => match shapeOfSexp t, go ts with
+          | some s, some l => some (s :: l)
+          | _, _ => none
+      match go types with
+      | some l => showBool (isTupleOfTypes l a)
+      | none => "bad-shape"
   | "p_c16h" :: _ :: steps => buildHistoryModel steps
   | ["subset", a, b] => withShape a fun a => withShape b fun b => showBool (isSubset a b)
   | ["similar", a, b] => withShape a fun a => withShape b fun b =>
